@@ -58,3 +58,60 @@ Definition known_dd (db : list quad) : bool := existsb known_dd_quad db.
 Definition dd_ttl_term (v : str) : bool := starts_with [cDQ] v && ends_with [cDQ] v.
 Definition known_dd_ttl (db : list quad) : bool := existsb (fun q => is_default q && dd_ttl_term (qd_o q)) db.
 Definition known_ttl (db : list quad) : bool := known_dd_ttl db.
+
+(* ---- quoted-triple terms ------------------------------------------------------------------------------------ *)
+(* The stored dataset only shows a quoted triple through decode_any, i.e. as the string "<< s p o >>" of BARE
+   components.  A term tree and its rendering; `qsafe` is the class of quoted triples whose bare rendering is
+   unambiguous (the class checks/c14.py calls qt_safe): components are IRIs without whitespace characters, blank
+   nodes, nested safe quoted triples, or - in object position - literals that are single-spaced words free of
+   whitespace characters, double quotes, angle brackets and backslashes. *)
+Inductive qterm := QIri (s : str) | QBn (s : str) | QLit (ws : list str) | QQt (a b c : qterm).
+Fixpoint qrender (t : qterm) : str :=
+  match t with
+  | QIri s => s
+  | QBn s => s
+  | QLit ws => join [cSP] ws
+  | QQt a b c => sLTLT ++ [cSP] ++ qrender a ++ [cSP] ++ qrender b ++ [cSP] ++ qrender c ++ [cSP] ++ sGTGT
+  end.
+Definition word_char (c : N) : bool :=
+  negb (is_ws c) && negb ((c =? cLT) || (c =? cGT) || (c =? cDQ) || (c =? cBS)).
+Definition word_ok (w : str) : bool := negb (is_nil w) && forallb word_char w.
+Definition no_ws (s : str) : bool := forallb (fun c => negb (is_ws c)) s.
+Definition q_is_subj (t : qterm) : bool := match t with QLit _ => false | _ => true end.
+Definition q_is_iri (t : qterm) : bool := match t with QIri _ => true | _ => false end.
+Fixpoint qsafe (t : qterm) : bool :=
+  match t with
+  | QIri s => wf_iri s && no_ws s
+  | QBn s => wf_bnode s
+  | QLit ws => forallb word_ok ws && kind_guess_stable (join [cSP] ws)
+  | QQt a b c => qsafe a && q_is_subj a && qsafe b && q_is_iri b && qsafe c
+  end.
+Definition qsafe_qt (t : qterm) : bool := match t with QQt _ _ _ => qsafe t | _ => false end.
+
+(* a subject / object of a quad: a bare term (IRI, blank node, literal) or a quoted triple *)
+Inductive term := Bare (v : str) | Quoted (t : qterm).
+Definition term_str (t : term) : str := match t with Bare v => v | Quoted q => qrender q end.
+Definition is_quoted (t : term) : bool := match t with Quoted _ => true | Bare _ => false end.
+Definition tquad := (term * str * term * option str)%type.
+Definition tq_den (q : tquad) : quad :=
+  match q with (s, p, o, g) => (term_str s, p, term_str o, g) end.
+Definition tden (db : list tquad) : list quad := map tq_den db.      (* what decode_any shows of the dataset *)
+Definition wf_tsubj (t : term) : bool := match t with Bare v => wf_subj v | Quoted q => qsafe_qt q end.
+Definition wf_tobj (t : term) : bool := match t with Bare v => wf_obj v | Quoted q => qsafe_qt q end.
+Definition wf_tquad (q : tquad) : bool :=
+  match q with (s, p, o, g) => wf_tsubj s && wf_iri p && wf_tobj o && wf_graph g end.
+Definition wf_tdb (db : list tquad) : bool := forallb wf_tquad db.
+
+(* Turtle with quoted triples: a statement whose subject or object is a quoted triple is encoded through
+   encode_term_star (the N-Quads double-decoding class applies to it), and a quoted-triple OBJECT is searched for
+   the annotation marker "{|" (its components are written bare) *)
+Definition known_ttl_q_quad (q : tquad) : bool :=
+  match q with (s, p, o, g) =>
+    match g with
+    | Some _ => false
+    | None => (negb (is_quoted o) && dd_ttl_term (term_str o))
+              || ((is_quoted s || is_quoted o) && known_dd_quad (tq_den q))
+              || (is_quoted o && contains sANN_OPEN (term_str o))
+    end
+  end.
+Definition known_ttl_q (db : list tquad) : bool := existsb known_ttl_q_quad db.
